@@ -284,6 +284,17 @@ def concrete_part(ctx, rep, replay):
         po = parse_packets(over)
         if po is not None and any(i >= E24 for i, _ in po):
             rep.violated("c18/native/id-2^24-refused/K=%d" % K, "id 2^24", "a repair packet with encoding symbol id 2^24 was produced: %s" % over[:100], {"kind": "window", "K": K, "T": T, "s": E24 - K, "n": 1}, 0.0, "native")
+    # plans are interchangeable: the block encoders inside a multi-block Encoder equal standalone and explicitly planned ones,
+    # in particular for neighbouring block sizes KL, KS = KL-1 that map to different K' (KS a Table-2 value: 10, 12, 18, 26, ...)
+    for F, T, Z in ((168, 8, 2), (100, 4, 2), (111, 3, 3), (212, 4, 2), (500, 2, 3), (37, 1, 2), (1000, 8, 5)):
+        for prof in (False, True):
+            ob = replay.run(["object-vs-blocks", F, T, Z], release=prof)
+            n += 1
+            if not ob.startswith("blocks") or "false" in ob:
+                rep.violated("c18/native/object-blocks-vs-standalone/F=%d,T=%d,Z=%d" % (F, T, Z), "object blocks F=%d" % F,
+                             "a block encoder inside Encoder::new differs from a standalone / explicitly planned encoder over the same bytes (block:K:same = %s)" % ob[:200],
+                             {"kind": "object-vs-blocks", "F": F, "T": T, "Z": Z}, 0.0, "native")
+                break
     pl = replay.run(["plan", 26], release=True)
     if "equal=true" not in pl:
         rep.violated("c18/native/plans-interchangeable", "plan", "two plans generated for K=26 differ: %s" % pl[:100], {"kind": "plan", "K": 26}, 0.0, "native")
@@ -337,6 +348,8 @@ def replay(path):
     r = Replay(Scratch("replay").path)
     if obj.get("kind") == "window":
         print(r.both(["repair", obj["K"], obj["T"], obj["s"], obj["n"]]))
+    elif obj.get("kind") == "object-vs-blocks":
+        print(r.both(["object-vs-blocks", obj["F"], obj["T"], obj["Z"]]))
     else:
         print(json.dumps(obj, indent=1)[:2000])
     return 0
